@@ -23,8 +23,27 @@ ASSUMPTIONS = [
     "mutators are called with valid arguments only (C17 covers their semantics): float records of >= 64 samples, Butterworth "
     "cut-offs in [0.02, 0.8] of Nyquist with band ratio >= 1.5 given as tuples, polynomial degree 0..4, widths 1..25, "
     "ascending response periods with 2 <= T/dt <= 300 (optional leading 0), ascending positive smoothing frequencies as ndarray/list",
-    "explicit gen_*/generate_* calls are made with default xi, min_dt_ratio, band, p2_plus only: non-default arguments are "
-    "one-off computations, not settings",
+    "explicit gen_*/generate_* calls with non-default xi, min_dt_ratio, band, p2_plus / n, trap are one-off computations, not settings: "
+    "what such a call regenerates is compared with a fresh object on which the SAME call is made (mid-range-options, mid-range-smooth; "
+    "for gen_fa_spectrum(n= / p2_plus=) also read-isolation and histories) or not compared until the values change again (band, xi, "
+    "min_dt_ratio, trap in read-isolation and histories); the record itself and every other observable must be untouched by the call. "
+    "After gen_fa_spectrum(n= / p2_plus=) the smoothed spectrum is NOT excluded: whatever was cached before, it must be the smoothing of "
+    "the CURRENT Fourier spectrum (fresh object given the same call + Konno-Ohmachi reference; /repo fix da9cde1)",
+    "`values` is an observable of its own: after reads, explicit generation calls and settings changes the record must equal, bit for bit, "
+    "its state after the last change of the values (the fresh object of the other comparisons is built from the CURRENT values and cannot "
+    "see a read that rewrites the record)",
+    "mid-range clauses: scripted records (noise x envelope on a slow sine, non-zero mean) of 2 000..300 000 samples (thorough 2 000 000), "
+    "dt in {0.005, 0.01, 0.02}, smoothing targets log-spaced inside [max(0.1 Hz, 4 df), 0.6 Nyquist], periods geometric with 24 <= T/dt <= 280 "
+    "(no interpolation) or from 6.8 / 8 / 12 steps (interpolation 4 / 3 / 2 times; records <= 10 000 samples, thorough 40 000); response "
+    "spectra are read only for records <= 24 000 samples (thorough 120 000) because the library iterates over the samples in Python "
+    "(~11 us each); running_average / remove_rolling_average are applied to records <= 20 000 samples (80 000), correct_me to <= 100 000 "
+    "(400 000) for the same reason; Fourier frequencies x targets <= 3e7 (4e7), periods x samples <= 1e7 (2e7): memory",
+    "mid-range clauses: a scripted mutator that raises on its known-valid arguments is a harness error (exit 2) like in the exhaustive "
+    "clauses; a call that must deliver an observable (reads, gen_*/generate_* calls, response_series) raising is a violation; MemoryError "
+    "anywhere is inconclusive",
+    "the fresh object lives in the same process as the object under test: state kept by the library at module / class level would be "
+    "shared by both and is invisible to the differential oracle; only the smoothed spectrum is additionally anchored (two targets per "
+    "case) to the independent Konno-Ohmachi reference of C07",
     "exhaustive part: the observational cache state is the subset of {fa, smooth_fa, velocity/displacement, pga, pgv, pgd, response "
     "spectra} read since the last change; every state x every mutator/settings change x every observable, on fixed records",
 ]
@@ -443,7 +462,8 @@ def _iso_enum(tier, shard, nshards):
                   "arguments: gen_fa_spectrum(n = npts | npts+7 | 2 npts | npts-9), (p2_plus = 1 | 2), smoothing with another band, spectra with "
                   "another damping / min_dt_ratio, response_series, rectangle-rule integration; these in the states with nothing, one quantity or everything cached): X read twice, then the record itself and every "
                   "other observable Y (for a one-off call: every Y the call does not legitimately regenerate) compared with a deep copy taken "
-                  "before X was read; record length rotating through {96, 128, 127, 129} (thorough: all four); non-trivial = state has >= 1 "
+                  "before X was read; after a gen_fa_spectrum(n= / p2_plus=) call the Fourier spectrum, its frequencies and the smoothed "
+                  "spectrum are compared with a fresh object given the same call, the smoothed one also with the Konno-Ohmachi reference; record length rotating through {96, 128, 127, 129} (thorough: all four); non-trivial = state has >= 1 "
                   "cached quantity",
              oracle="differential: deep copy before vs after a read (exact, NaN-aware), values of the record bit for bit; reads idempotent",
              exhaustive_note="complete over cache state x read x other observable on a fixed record", quick_shards=2)
@@ -484,6 +504,15 @@ def read_isolation(case, ctx):
         want = read(copy.deepcopy(before), y)
         if not np.array_equal(np.asarray(got), np.asarray(want), equal_nan=True):
             ctx.fail("n=%d: reading %s changed %s (state %s)" % (n, x, y, [nm for b, nm in enumerate(state) if case["state"] >> b & 1]))
+    if skip == _FA_DOWN:
+        # the Fourier spectrum was replaced: it, its frequencies and the smoothed spectrum (which must now be the smoothing of the
+        # CURRENT Fourier spectrum, whatever was cached before) are those of a fresh object given the same call
+        ref = fresh_of(before)
+        fn(ref)
+        what = "n=%d, state %s, %s" % (n, [nm for b, nm in enumerate(state) if case["state"] >> b & 1], x)
+        for y in _FA_DOWN:
+            compare(ctx, y, read(obj, y), read(ref, y), what)
+        _anchor_smooth(ctx, obj, 40, what, "%d:%s" % (n, x))
     pure(ctx, obj, v0, "n=%d, %s and then all other observables read" % (n, x))
 
 
@@ -509,16 +538,25 @@ class Hist(object):
         self.obs = ACC_OBS if self.acc else SIG_OBS
         self.vsnap = np.array(self.obj.values)  # the record as the last change of the values left it
         self.taint = set()                      # observables regenerated with one-off arguments since then (not comparable)
+        self.fa_call = None                     # the last gen_fa_spectrum(n= / p2_plus=) call since then: the fresh object gets it too
         self.read_before = set()
         self.pending = set()
         self.nmut = 0
         self.nstep = 0
         ctx.cls("acc" if self.acc else "sig")
 
+    def fresh(self):
+        """The reference object: same values and settings; after an explicit gen_fa_spectrum(n= / p2_plus=) it is given the same
+        call (its Fourier spectrum, frequencies and - lazily - smoothed spectrum are then those of that transform)."""
+        f = fresh_of(self.obj)
+        if self.fa_call is not None:
+            self.fa_call(f)
+        return f
+
     def step(self, op, args):
         ctx = self.ctx
         if op == "read":
-            fresh = fresh_of(self.obj)
+            fresh = self.fresh()
             for nm in args["names"]:
                 if nm not in self.obs:
                     continue
@@ -539,6 +577,8 @@ class Hist(object):
                 fn(self.obj)
             except Exception as e:  # noqa
                 ctx.fail("%s() raised %s: %s" % (args["name"], type(e).__name__, e))
+            if args["name"] in ("gen_fa_spectrum", "generate_fa_spectrum"):
+                self.fa_call = None  # the default transform again
             if self.obs is not _DEAD_OBS:
                 pure(ctx, self.obj, self.vsnap, "history step %d (%s())" % (self.nstep, args["name"]))
         elif op == "oneoff":
@@ -551,7 +591,10 @@ class Hist(object):
                 ent[0](self.obj)
             except Exception as e:  # noqa
                 ctx.fail("%s raised %s: %s" % (args["name"], type(e).__name__, e))
-            self.taint |= set(ent[1])
+            if ent[1] == _FA_DOWN:
+                self.fa_call = ent[0]
+            else:
+                self.taint |= set(ent[1])
             ctx.cls("oneoff")
             pure(ctx, self.obj, self.vsnap, "history step %d (%s)" % (self.nstep, args["name"]))
         else:
@@ -566,6 +609,7 @@ class Hist(object):
                 self.vsnap = np.array(self.obj.values)
                 if ok:
                     self.taint = set()
+                    self.fa_call = None
             ctx.cls("mut=" + op)
             self.nmut += 1
             self.nstep += 1
@@ -577,7 +621,7 @@ class Hist(object):
                 self.obs = _DEAD_OBS
 
     def finish(self):
-        fresh = fresh_of(self.obj)
+        fresh = self.fresh()
         for nm in self.obs:
             got = read(self.obj, nm)
             if nm not in self.taint:
@@ -732,8 +776,9 @@ class C04Machine(HM):
 
 machine_clause(CLAUSES, "histories", C04Machine, Hist, quick=120, thorough=350, quick_steps=30, thorough_steps=60,
                rule="Hypothesis rule-based state machine: random interleavings of 24 mutators / settings changes (generated arguments), "
-                    "15 reads, 8 explicit default regeneration calls and 12 generation calls with one-off arguments (what these regenerate "
-                    "is not compared until the values change) on Signal / AccSignal objects built from generated records (n 64..300, half of "
+                    "15 reads, 8 explicit default regeneration calls and 12 generation calls with one-off arguments (after "
+                    "gen_fa_spectrum(n= / p2_plus=) the fresh object is given the same call; what the others regenerate is not compared "
+                    "until the values change) on Signal / AccSignal objects built from generated records (n 64..300, half of "
                     "them at 64 / 128 / 256 or next to one; repo sampling rates); every read is compared with a fresh object, all observables "
                     "at the end; after every read, regeneration and settings change the record itself is compared bit for bit with its state "
                     "after the last change of the values; "
@@ -782,15 +827,16 @@ def _same_ends(cur, p):
     return new
 
 
-def _inner(cur):
-    """Same length, same first and last value: only the second and the second-to-last entry move (to the geometric mean with
-    their outer neighbour, so the grid stays ascending).  A cache keyed by the length, the end points, the identity, a leading or
-    a trailing stretch of the settings array is stale after this change."""
+def _inner(cur, which="hi"):
+    """Same length, same first and last value: ONE inner entry moves - the second ('lo') or the second-to-last ('hi') - to the
+    geometric mean with its outer neighbour, so the grid stays ascending.  A cache keyed by the length, the end points, the identity,
+    or a leading ('hi') / trailing ('lo') stretch of the settings array is stale after this change."""
     new = np.array(cur, dtype=float)
-    if len(new) >= 4:
-        new[1] = math.sqrt(new[0] * new[1])
     if len(new) >= 3:
-        new[-2] = math.sqrt(new[-2] * new[-1])
+        if which == "lo":
+            new[1] = math.sqrt(new[0] * new[1])
+        else:
+            new[-2] = math.sqrt(new[-2] * new[-1])
     return new
 
 
@@ -830,8 +876,8 @@ MID_MUTATORS = {
     "gen_smooth_w_freqs_n": lambda o, a: o.gen_smooth_fa_spectrum(smooth_fa_freqs=_logf_n(o, a)),
     "set_by_range_n": lambda o, a: o.set_smooth_fa_frequecies_by_range((a["lo"], a["hi"]), len(o.smooth_fa_freqs)),
     "set_freqs_same_ends": lambda o, a: setattr(o, "smooth_fa_freqs", _same_ends(o.smooth_fa_freqs, a["p"])),
-    "set_freqs_inner": lambda o, a: _set_freqs(o, _inner(o.smooth_fa_freqs), a.get("route", "freqs")),
-    "set_periods_inner": lambda o, a: _set_periods(o, _inner(o.response_times), a.get("via", "attr")),
+    "set_freqs_inner": lambda o, a: _set_freqs(o, _inner(o.smooth_fa_freqs, a.get("which", "hi")), a.get("route", "freqs")),
+    "set_periods_inner": lambda o, a: _set_periods(o, _inner(o.response_times, a.get("which", "hi")), a.get("via", "attr")),
     "set_periods_n": lambda o, a: _set_periods(o, _as(o.dt * np.geomspace(a["rlo"], a["rhi"], len(o.response_times)), a),
                                                a.get("via", "attr")),
     "set_periods_same_ends": lambda o, a: _set_periods(o, _same_ends(o.response_times, a["p"]), a.get("via", "attr")),
@@ -854,8 +900,9 @@ def _oneoff_smooth(o, a):
 
 
 def _oneoff_fa(o, a):
+    # no explicit smoothing afterwards: the call itself must invalidate the smoothed spectrum, which is then read lazily and must
+    # be the smoothing of THIS Fourier spectrum (fresh object given the same call + Konno-Ohmachi anchor)
     o.gen_fa_spectrum(**_kw(a, ("p2_plus", "n")))
-    o.gen_smooth_fa_spectrum()  # the smoothed spectrum of THAT Fourier spectrum, on the object and on the fresh one
 
 
 def _oneoff_rs(o, a):
@@ -1097,7 +1144,7 @@ def _step(kind, st, key):
     if kind == "set_freqs_same_ends":
         return ["set_freqs_same_ends", {"p": (1.0, 1.7)[s % 2]}]
     if kind == "set_freqs_inner":
-        return ["set_freqs_inner", {"route": ("freqs", "frequencies", "gen")[s % 3]}]
+        return ["set_freqs_inner", {"route": ("freqs", "frequencies", "gen")[s % 3], "which": ("lo", "hi")[(s // 3) % 2]}]
     if kind == "set_freq_points":
         st["nt"] = max(3, st["nt"] // 2 + s % 3) if s % 2 else st["nt"] + 1 + s % 3
         return ["set_freq_points", {"n": st["nt"]}]
@@ -1117,7 +1164,8 @@ def _step(kind, st, key):
     if kind == "set_periods_head":   # only the first (shortest) period differs
         return ["set_periods_edge", {"i": 0, "c": 0.93, "via": ("attr", "gen")[s % 2] if st.get("rs") else "attr"}]
     if kind == "set_periods_inner":
-        return ["set_periods_inner", {"via": ("attr", "gen", "generate", "series")[s % 4] if st.get("rs") else "attr"}]
+        return ["set_periods_inner", {"via": ("attr", "gen", "generate", "series")[s % 4] if st.get("rs") else "attr",
+                                      "which": ("lo", "hi")[(s // 4) % 2]}]
     if kind == "set_periods_new_len":
         st["P"] = max(3, st["P"] // 2 + s % 3) if s % 2 else st["P"] + 1 + s % 3
         return ["set_response_times", {"rlog": [rlo, rhi, st["P"]], "as": how}]
@@ -1243,10 +1291,10 @@ def _len_enum(tier, shard, nshards):
 
 enum_clause(CLAUSES, "mid-range", _len_enum,
             rule="record length laddered from 2 000 to 300 000 samples (quick: 9 log-bins to 186 000 + both ends + sizes aimed at integer literals of "
-                 "the source + two exact powers of two and two lengths next to one; thorough: 24 bins to 2 000 000), AccSignal and Signal; per length every third (above 120 000 samples every fifth; thorough: every) one of 36 / 22 "
+                 "the source + two exact powers of two and two lengths next to one; thorough: 24 bins to 2 000 000), AccSignal and Signal; per length every third (above 120 000 samples every fifth; thorough: every) one of 39 / 23 "
                  "scripted changes (each in-place mutator incl. three Butterworth forms, same-length / shorter / half-length reset_values, "
                  "time-zone variants; every smoothing-frequency setter with the SAME number of targets, same end points, another count; "
-                 "period setters) in histories of <= 5 steps: warm every observable, change, re-read EVERY observable, change ...; "
+                 "one inner target moved; period setters incl. one inner period changed) in histories of <= 5 steps: warm every observable, change, re-read EVERY observable, change ...; "
                  "response spectra are read for records <= 3 500 samples (longer ones: mid-range-spectra), per-sample Python-loop mutators applied to <= 20 000 (thorough 80 000)",
             oracle="differential against a fresh object after every step (1e-10 of magnitude), second and third read bit for bit; "
                    "smoothed spectrum additionally anchored on two targets to the Konno-Ohmachi reference of C07 (1e-10 + conditioning bound)",
@@ -1310,7 +1358,7 @@ enum_clause(CLAUSES, "mid-range-spectra", lambda tier, shard, nshards: _deal(_rs
             rule="AccSignal with all 15 observables read (response spectra included) after every step: (a) record length laddered 2 000..24 000 "
                  "plus an exact power of two and a length next to one (thorough 120 000; one Python iteration per sample makes longer records unaffordable), (b) records of 2 000..10 000 (40 000) "
                  "samples whose shortest period makes the object interpolate 2, 3 or 4 times finer, (c) 10..1000 (3000) periods, (d) periods x "
-                 "samples from 1e5 to 1e7 (2e7); history = the second and the second-to-last period changed, everything else (count, end points) kept - through "
+                 "samples from 1e5 to 1e7 (2e7); history = the second or the second-to-last period (hash-chosen) changed, everything else (count, end points) kept - through "
                  "assignment, gen_/generate_response_spectrum or response_series in rotation -, an in-place mutator of the values (same length in "
                  "(b)), periods changed again (all new, in-place scaling, same end points, only the last / only the first period, other count; "
                  "other route) or a smoothing setting; the kinds of steps 2 and 3 rotate with the index and the seed",
@@ -1381,7 +1429,7 @@ enum_clause(CLAUSES, "mid-range-smooth", lambda tier, shard, nshards: _deal(_smo
             rule="(a) 10..5000 smoothing targets (8 log-bins, thorough 18, + ends + source literals) on records with 1024 Fourier frequencies; "
                  "(b) Fourier frequencies x targets laddered from 1e5 to 3e7 (8 log-bins, thorough 20 to 4e7, + products just above source "
                  "literals), record 2 000..300 000 samples (thorough 1 000 000) and 10..5000 targets by a hash-chosen split; history = the "
-                 "second and the second-to-last target moved, everything else (count, end points) kept - through the setter, the deprecated "
+                 "second or the second-to-last target (hash-chosen) moved, everything else (count, end points) kept - through the setter, the deprecated "
                  "setter or gen_smooth_fa_spectrum(freqs) in rotation -, an in-place mutator of the values, [<= 4e6: another same-count change "
                  "(all new through one of the three routes, range, by-range, in-place scaling, same end points)], [<= 1.2e6: a one-off gen_/generate_smooth_fa_spectrum(band=20|57.5|80 [, freqs]), a mutator, another number of targets]; "
                  "AccSignal / Signal alternate (Signal above 1e7); all observables re-read after every step",
